@@ -105,6 +105,7 @@ type InstanceResult struct {
 	EngineError string         `json:"engine_error,omitempty"`
 	SampleVectors [][]ReplayItem `json:"sample_vectors,omitempty"`
 	Pending     [][]decision   `json:"pending,omitempty"`
+	DomDecided  int            `json:"dom_decided"`
 	Stubs       map[string]int `json:"stubs,omitempty"`
 }
 
